@@ -1318,7 +1318,7 @@ fn replay(path: &str, hdr: usize) {
         } else {
             println!("{}", line);
         }
-        println!("expected(model): {}", v["expected"]);
+        println!("expected: {}", v["expected"]);
     } else if case["child"].as_bool() == Some(true) {
         let depth = case["depth"].as_i64().unwrap_or(100000);
         let fam = case["family"].as_str().unwrap_or("nontail-direct").to_string();
